@@ -4,7 +4,7 @@
    [isword] is CPython's \w table (Base/WordTable.v); the percent-quoting table is
    [gen_to_quote], regenerated from /repo/gffutils/parser.py on every run. *)
 From GV Require Import Base.Prelude Base.PyStr Base.Utf8 Base.WordTable Model.DB Model.Parser Model.Grammar Gen.GenConst
-  Proofs.GenConstEquiv Proofs.C07Parse Proofs.C07Proofs.
+  Proofs.GenConstEquiv Proofs.C07Parse Proofs.C07Proofs Proofs.C07Nonstrict.
 Open Scope N_scope.
 
 (* the attribute column: the inference path returns the attributes (decoded, in order) and the
@@ -38,3 +38,23 @@ Proof.
   inversion Hparse. subst g. exact (l_print_line st f Hwf Hcan).
 Qed.
 Print Assumptions C07_print_identity.
+
+(* strict=False: the nine-column line written with runs of blanks (any white space that is neither a
+   line break nor a tab) instead of tabs - no blanks inside columns 1-8, no extra columns, an
+   attribute column free of line-break characters - and surrounded by arbitrary white space
+   including line breaks, parses to the same Feature *)
+Theorem C07_nonstrict : forall st f gap pre post,
+  wf_feature st f = true -> f_dialect f = canon_dialect st (f_attrs f) -> f_extra f = [] ->
+  (forall w, In w [f_seqid f; f_source f; f_ftype f; f_score f; f_strand f; f_frame f] -> solid w) ->
+  (forall x, f_start f = Some x -> (0 <= x)%Z) -> (forall x, f_end f = Some x -> (0 <= x)%Z) ->
+  blank gap -> gap <> [] -> (forall c, In c gap -> is_lb c = false /\ c <> TAB) ->
+  blank pre -> blank post ->
+  (forall c, In c (render_attrs st (f_attrs f)) -> is_lb c = false) ->
+  feature_from_line_nonstrict isword (spaced gap pre post st f) None true
+  = feature_from_line isword (render_line st f) None true.
+Proof.
+  intros st f gap pre post Hwf Hcan. intros.
+  rewrite (l_parse_line isword isword_ascii isword_eq isword_sp st f Hwf Hcan).
+  apply (l_nonstrict isword isword_ascii isword_eq isword_sp); assumption.
+Qed.
+Print Assumptions C07_nonstrict.
